@@ -28,15 +28,23 @@ MANIFEST = {
             "C07_wf_out_Test_TEMPLATEStateMachine_cs / C07_fixed_point_shipped_cs / C01_fixed_point_shipped_cs: both halves for the shipped "
             "Test.TEMPLATEStateMachine.cs (names_ok_cs = names_ok + no guard named like a state hook On<State>Entry/Exit; user_lines_plain for the "
             "assignment), evaluated on every cs case (d07.names_ok_shipped_cs) with wf_fresh_file on the real lines; real = extracted model for the "
-            "two whole cs files on every case. Model tied to the code by "
+            "two whole cs files on every case. C07_wf_out_TEMPLATEStateMachine_py / _h, C07_fixed_point_shipped_py / _h (C01_fixed_point_shipped_py / _h): both "
+            "halves for the WHOLE shipped files TEMPLATEStateMachine.py and TEMPLATEStateMachine.h (C07_fresh_of_template_x: templates with transition blocks, "
+            "per-event signature blocks, initial-state lines and the transition-table line); all their USER tags are fixed text, so the cleaned names are "
+            "pairwise distinct for EVERY element record (C07_keys_unique_TEMPLATEStateMachine_py / _h); hypothesis names_ok_py / names_ok_h (= names_ok_x, SYNTACTIC) = every name a "
+            "non-empty alphanumeric word and the initial state, the per-state transition lists, the table cells and those signature strings of the oracle that the file asks for (both files: without defaults; a C++ default ={} does not matter) free "
+            "of '{', backslash and CR (C07_oracle_condition_needed: a signature spelling a USER tag of the file breaks well-formedness) -- C07_dyn_plain_of_names (Proofs/Dyn07.v) derives from it that the output chunks of those four kinds of items are "
+            "plain chunks (through the reference expansion, EngineSM.paren_clean and the sml printer EngineSM.sml_print) --, plus user_lines_plain and the "
+            "C16 admission wf_elements16 (both computed per case); evaluated on every py / cpp case (d07.names_ok_shipped_x, oracle from the real Language object) with "
+            "wf_fresh_file on the real lines. Model tied to the code by "
             "comparing the real bytes of these files with EngineSM.generate on every random cpp/proto case; names_ok and wf_fresh_file are evaluated "
             "(extracted) on the real outputs. FOR THE OTHER FILES (PARTIAL): C07_template_tags_known, C07_template_user_tags_paired_unique (finite "
             "obligations over Gen/Templates.v), C07_instances_unique / C07_pair_instances_injective, C07_collect_unambiguous; the universally quantified "
             "statement is tied by evaluating the extracted represervable and an independent regex oracle on every file of real generations.",
     "note": PRES_NOTE + " For-all-models theorems hold for the fixed first-filter dictionary dict0 (project name X, namespace NS) and only for the "
             "shipped files that use name/case/counter tags (Test.TEMPLATEStateMachine.cpp with USER tags; TEMPLATEReceiver.h, TEMPLATETransmitter.h "
-            "generator-tag half only). All other shipped files use signature/member/table/nested-transition tags that the Coq engine model does not "
-            "cover. Known findings K-C07-2/3 reproduce what happens outside names_ok.",
+            "generator-tag half only; TEMPLATEStateMachine.py / .h with USER tags under the syntactic names_ok_x). All other shipped files use "
+            "member/attribute/documentation tags that the Coq engine model does not cover. Known findings K-C07-2/3 reproduce what happens outside names_ok.",
 }
 RULE = ("cases = real generations: random valid tables/interfaces/user-tag settings for the three state-machine back ends and the protocol generator, "
         "adversarial tables (repeated actions on different events, target-only states, rows without guard/action/target, names that are "
@@ -236,6 +244,14 @@ def whole_file_tie(ctx, kind, table, iface, desc):
         ctx.count("whole_file_compared_" + tname)
         if not ref or real is None or ref[0].decode("utf-8", "surrogateescape") != real.decode("utf-8", "surrogateescape"):
             ctx.tie_broken("whole file: real %s vs ref16 of the shipped template with the signature oracle" % tname, dict(desc, file=tname))
+        # domain of C07_wf_out_TEMPLATEStateMachine_py / _h (names_ok_x, syntactic: alphanumeric names; initial state, transition lists, table cells and
+        # oracle strings free of '{', backslash, CR; user_lines_plain): then the theorem promises a well-formed fresh file; the extracted
+        # wf_fresh_file is evaluated on the REAL lines
+        dom = ctx.km.call("d07.names_ok_shipped_x", lines, rows, structs, protos, msgs, sigs, ut) == b"1"
+        ctx.count("names_ok_x_%s_%s" % (tname, "true" if dom else "false"))
+        if dom and real is not None and ctx.km.call("wf_fresh", splitlines_keep(real)) != b"1":
+            ctx.violation("names_ok_x holds but the real %s is not a well-formed fresh file" % tname.replace("TEMPLATE", "X"),
+                          dict(desc, file=tname, finding_key="names-ok-x-but-not-wf"))
 
 
 def run(ctx):
